@@ -1,5 +1,6 @@
 """C03 — comparisons: scaled_integer (shared scaled harness) and elastic_integer (elastic harness, comparisons only).
-wide_integer comparisons are exercised and proved under C10 (theorem `comparisons`)."""
+wide_integer: same-type comparisons are exercised and proved under C10 (theorem `comparisons`); comparisons of two different
+wide_integer types (C03w.h, table `wcmpt`) are modelled in CnlModel/WideCmp.lean and proved in CnlProperties/C03.lean."""
 import os, sys
 sys.path.insert(0, os.path.dirname(os.path.abspath(__file__)))
 import C01
@@ -35,16 +36,34 @@ def tus(tier, seed):
             body += '  cmpi<%d, %s, %s>(rng);\n' % (d, C05.CT[n], C05.CT[b])
         body += '}\n'
         res.append(dict(name='C03_eint_%d' % (i // 4), src=body, compiler='g++'))
-    # wide_integer comparisons across different widths (single-word vs multi-word, multi vs multi)
+    # wide_integer comparisons across different types: single-word vs multi-word, multi vs multi of different
+    # widths with the wider operand on either side, signed and unsigned narrowest types, 8/32/64-bit limbs,
+    # different signedness (compiles for different widths only); fixed corner pairs + seeded random widths
     hdr = os.path.join(os.path.dirname(os.path.abspath(__file__)), 'C03w.h')
-    pairs = [(200, 300), (300, 200), (129, 200), (200, 200), (150, 1024), (100, 200), (200, 100)]
-    for i in range(0, len(pairs), 3):
-        body = '#include "%s"\nint main(){ install(); Rng rng(seed_from_env());\n' % hdr
-        for (dl, dr) in pairs[i:i + 3]:
-            body += '  wcmp<%d, %d>(rng);\n' % (dl, dr)
+    pairs = [(200, 'i32', 300, 'i32'), (300, 'i32', 200, 'i32'), (129, 'i32', 200, 'i32'), (200, 'i32', 200, 'i32'),
+             (150, 'i32', 1024, 'i32'), (100, 'i32', 200, 'i32'), (200, 'i32', 100, 'i32'), (200, 'i32', 210, 'i32'),
+             (100, 'i32', 50, 'i32'),
+             (200, 'u32', 300, 'u32'), (300, 'u32', 200, 'u32'), (128, 'u32', 200, 'u32'), (129, 'u32', 128, 'u32'),
+             (200, 'i8', 300, 'i8'), (300, 'u8', 200, 'u8'), (200, 'i64', 300, 'i64'), (320, 'u64', 200, 'u64'),
+             (200, 'i32', 300, 'u32'), (300, 'u32', 200, 'i32'), (200, 'u32', 300, 'i32'), (300, 'i32', 200, 'u32'),
+             (100, 'i32', 300, 'u32'), (300, 'i32', 100, 'u32'),
+             # single-word representations of different signedness (the built-in rule applies to the representations)
+             (32, 'u32', 32, 'i32'), (32, 'i32', 32, 'u32'), (16, 'u8', 16, 'i8'), (31, 'i64', 32, 'u32'),
+             (64, 'u32', 64, 'i32'), (64, 'i32', 64, 'u32'), (40, 'i16', 100, 'u16')]
+    import random
+    rnd = random.Random(seed * 7919 + 3)
+    for _ in range(3 if tier == 'quick' else 9):
+        n = rnd.choice(['i32', 'u32', 'i8', 'u8', 'i64', 'u64', 'i16'])
+        a, b = rnd.randint(129, 700), rnd.randint(129, 700)
+        pairs.append((a, n, b, n))
+    per = 3
+    for i in range(0, len(pairs), per):
+        body = '#include "%s"\nint main(){ install(); Rng rng(seed_from_env() + %d);\n' % (hdr, 1300 + i)
+        for (dl, nl, dr, nr) in pairs[i:i + per]:
+            body += '  wcmpt<%d, %s, %d, %s>(rng);\n' % (dl, C01.CT[nl], dr, C01.CT[nr])
         body += '}\n'
-        res.append(dict(name='C03_wide_%d' % (i // 3), src=body, compiler='g++'))
+        res.append(dict(name='C03_wide_%d' % (i // per), src=body, compiler='g++' if tier == 'quick' or (i // per) % 2 == 0 else 'clang++'))
     return res
 
 
-RULE = C01.RULE + "; elastic pairs: all values for digits <= 6, boundary lattice of both declared ranges otherwise (so -1 versus 2^D-1 is always present)"
+RULE = C01.RULE + "; wide pairs: boundary lattice 2^k+5, 2^k-1, -2^k+5 for k next to the digit counts and storage widths of BOTH operand types (values that differ only above the narrower width), small and negative values, random magnitudes; elastic pairs: all values for digits <= 6, boundary lattice of both declared ranges otherwise (so -1 versus 2^D-1 is always present)"
